@@ -95,7 +95,9 @@ def main():
         crate.add_case(c["case"], render(c))
 
     def main_fn(live):
-        return "\n".join(f'    println!("{{{{\\"case\\":\\"{cid}\\",\\"r\\":{{:?}}}}}}", cases::{crate.cases[cid]}::run());' for cid in live)
+        rows = ",\n".join(f'        ("{cid}", cases::{crate.cases[cid]}::run as fn() -> Vec<u32>)' for cid in live)
+        return ("    let table: &[(&str, fn() -> Vec<u32>)] = &[\n" + rows + "\n    ];\n"
+                '    for (id, f) in table { println!("{{\\"case\\":\\"{}\\",\\"r\\":{:?}}}", id, f()); }')
 
     dump = os.path.join(chk.work, "dump")
     dropped, first_dump, iters = crate.build(mode="build", dump=dump, main_fn=main_fn)
